@@ -202,4 +202,30 @@ def specRun (h : Id → Ev → Phase → Nat → Cmd) (ev : Ev) : Nat → List (
 def callsOf (tr : List Entry) : List (Id × Ev × Phase) :=
   tr.filterMap fun | .call w ev ph => some (w, ev, ph) | _ => none
 
+
+/-! ### every returned command takes effect exactly once -/
+
+/-- The non-focus effects of the non-batch commands of a flattened command value. -/
+def nfEffs (l : List Atom) : List Eff := l.filterMap effOfAtom
+
+/-- The command effects recorded in a trace (`focused := w` assignments are not command effects:
+a focus command may be a no-op, and `updatePath` refocuses without a command). -/
+def effectsIn : List Entry → List Eff
+  | [] => []
+  | .eff e :: r => (match e with | .focusSet _ => effectsIn r | e => e :: effectsIn r)
+  | _ :: r => effectsIn r
+
+/-- Number of handler calls in a trace. -/
+def nCalls : List Entry → Nat
+  | [] => 0
+  | .call _ _ _ :: r => nCalls r + 1
+  | _ :: r => nCalls r
+
+/-- The effects the handler calls of a trace asked for: the `k`-th call overall answered
+`h w ev phase k`. `k0` = number of calls before this stretch of trace. -/
+def owed (h : Id → Ev → Phase → Nat → Cmd) : Nat → List Entry → List Eff
+  | _, [] => []
+  | k, .call w ev ph :: r => nfEffs (h w ev ph k).flatten ++ owed h (k + 1) r
+  | k, _ :: r => owed h k r
+
 end VaxisModel.Spec.Routing
